@@ -47,8 +47,15 @@ class Harness:
         pass
 
     def directed(self, prop, tier):
-        """[(name, cfg)] -- run first with fresh seeded schedules"""
-        return []
+        """[(name, cfg)] -- run first with fresh seeded schedules; default: /verif/corpus/<prop>/*.json"""
+        out = []
+        d = os.path.join(VERIF, "corpus", prop)
+        if os.path.isdir(d):
+            for fn in sorted(os.listdir(d)):
+                if fn.endswith(".json"):
+                    with open(os.path.join(d, fn), encoding="utf-8") as f:
+                        out.append((fn[:-5], json.load(f)))
+        return out
 
     def enumerated(self, prop, tier):
         """iterable of cfgs that are run exactly once each (systematic sweeps), before the random search"""
